@@ -199,7 +199,7 @@ pub fn case_strategy() -> impl Strategy<Value = AllocCase> {
     ];
     (
         prop_oneof![6 => 1u16..40, 2 => 40u16..256, 1 => 256u16..4000],
-        prop::collection::vec(plen, 0..60),
+        prop_oneof![9 => prop::collection::vec(plen, 0..60), 1 => prop::collection::vec(Just(0u16), 2..6)],
         prop_oneof![4 => 0u16..10, 1 => 10u16..300],
         len.clone(),
         prop_oneof![2 => Just(None), 2 => (0u16..20).prop_map(Some), 1 => (20u16..300).prop_map(Some)],
